@@ -11,6 +11,7 @@ import (
 	"fmt"
 	"io"
 	"regexp"
+	"runtime"
 	"strconv"
 	"strings"
 	"sync"
@@ -343,8 +344,8 @@ func c11RunSession(st *VStream, stats *VStats, r *VRand, bitLen int, nsets int, 
 		default:
 			size = r.Range(maxPat/4, maxPat)
 		}
-		if r.Chance(0.03) {
-			size = 0 // an empty pattern list (for an unknown kind this is not an error)
+		if r.Chance(0.03) && kind != "bogus" {
+			size = 0 // an empty pattern list
 			stats.Inc("dm.set.empty_pattern_list")
 		}
 		if kind == "regex" && size > 6 {
@@ -380,6 +381,15 @@ func c11RunSession(st *VStream, stats *VStats, r *VRand, bitLen int, nsets int, 
 					}
 				} else {
 					p = c11Label(r)
+				}
+				if r.Chance(0.08) { // a keyword longer than a label / spanning labels (64..300 bytes)
+					p = c11LongName(r, r.Range(64, 300))
+					p = p[r.Intn(8):]
+					if len(p) > 300 {
+						p = p[:300]
+					}
+					stats.Inc("dm.pat.keyword_long")
+					c11Max(stats, "dm.keyword.len.max", len(p))
 				}
 				switch r.Intn(14) {
 				case 0:
@@ -663,6 +673,12 @@ func c11BigSession(st *VStream, stats *VStats, r *VRand, nSuffix, nFull int) {
 		}
 	}
 	st.Emit("qall", fmt.Sprintf("n=%d hit=%d h=%x", len(outs), hit, c11FnvStr(strings.Join(outs, " "))))
+	// names of every length class, whatever the seed
+	for _, n := range c11LongSizes {
+		p := strings.TrimPrefix(ss.pool[r.Intn(len(ss.pool))], ".")
+		ss.query(st, stats, c11LongName(r, n)+"."+p)
+		ss.query(st, stats, c11LongLabel(r, n)+p)
+	}
 	stats.Add("dm.probe.qall", len(outs))
 	for q := 0; q < 300; q++ {
 		p := strings.TrimPrefix(ss.pool[r.Intn(len(ss.pool))], ".")
@@ -683,6 +699,48 @@ func c11BigSession(st *VStream, stats *VStats, r *VRand, nSuffix, nFull int) {
 	}
 }
 
+// the whole table in use: bitLen sets of all four kinds, each queried with a name only it matches
+func c11FullTableSession(st *VStream, stats *VStats, r *VRand, bitLen int) {
+	log := logrus.New()
+	log.SetOutput(io.Discard)
+	ss := &c11Sess{m: NewAhocorasickSlimtrie(log, bitLen)}
+	st.Emit(fmt.Sprintf("new %d", bitLen), "ok")
+	names := make([]string, bitLen)
+	for i := 0; i < bitLen; i++ {
+		kind := []string{"full", "suffix", "keyword", "regex", "suffix"}[i%5]
+		pats := []string{}
+		switch kind {
+		case "keyword":
+			pats = append(pats, fmt.Sprintf("kq%dx%dz", i, i*7))
+			names[i] = "a" + pats[0] + "b.net"
+		case "regex":
+			pats = append(pats, fmt.Sprintf(`^rr%d-%d\.`, i, i*3))
+			names[i] = fmt.Sprintf("rr%d-%d.org", i, i*3)
+		default:
+			pats = append(pats, fmt.Sprintf("t%d-%s", i, c11Name(r)))
+			names[i] = pats[0]
+			if kind == "suffix" && i%2 == 0 {
+				names[i] = "www." + pats[0]
+			}
+		}
+		if r.Bool() && kind != "regex" {
+			pats = append(pats, c11Name(r))
+		}
+		ss.add(st, i, kind, pats)
+	}
+	stats.Inc("dm.session.full_table")
+	c11Max(stats, "dm.sets.max", bitLen)
+	if ss.build(st, stats) != nil {
+		return
+	}
+	for i := 0; i < bitLen; i++ {
+		ss.query(st, stats, names[i])
+	}
+	for i := 0; i < 40; i++ {
+		ss.query(st, stats, c11Name(r))
+	}
+}
+
 func c11ValidSet(f func(byte) bool) string {
 	b := []byte{}
 	for c := 0; c < 256; c++ {
@@ -700,6 +758,9 @@ func c11AcCases(st *VStream, stats *VStats, r *VRand, cases, maxKw int) {
 		nk := r.Range(1, 30)
 		if n%5 == 0 {
 			nk = r.Range(maxKw/2, maxKw)
+		}
+		if n == 0 {
+			nk = maxKw // the scale the evidence claims must not depend on the seed
 		}
 		small := al[:r.Range(2, 6)] // small alphabet: many overlaps / shared prefixes / suffixes of one another
 		kws := make([]string, 0, nk)
@@ -794,7 +855,7 @@ func TestVerifC11Matcher(t *testing.T) {
 	// what makes the model's first-occurrence code and Go's last-write code the same function)
 	st.Emit("alpha d", fmt.Sprintf("valid=%s | n=%d order=-", c11ValidSet(ValidDomainChars.IsValidChar), ValidDomainChars.Size()))
 	st.Emit("alpha c", fmt.Sprintf("valid=%s | n=%d order=-", c11ValidSet(trie.ValidCidrChars.IsValidChar), trie.ValidCidrChars.Size()))
-	st.Emit("alpha ac", fmt.Sprintf("valid=%s | n=%d order=-", c11ValidSet(ahocorasick.IsValidChar), ahocorasick.N))
+	st.Emit("alpha ac", fmt.Sprintf("valid=%s | n=%d order=-", c11ValidSet(ahocorasick.IsValidChar), len(c11ValidSet(ahocorasick.IsValidChar))/2))
 
 	sessions, maxPat, nq := 100, 2000, 100
 	if VThorough() {
@@ -835,6 +896,7 @@ func TestVerifC11Matcher(t *testing.T) {
 		}
 		c11RunSession(st, stats, r, bitLen, nsets, mp, nq)
 	}
+	c11FullTableSession(st, stats, r, 1024)
 	// geosite scale, deterministically
 	if VThorough() {
 		c11BigSession(st, stats, r, 100000, 20000) // ~2*10^5 trie keys in one set
@@ -867,6 +929,10 @@ func TestVerifC11Concurrent(t *testing.T) {
 		log.SetOutput(io.Discard)
 		m := NewAhocorasickSlimtrie(log, 1024)
 		nsets := r.Range(24, 60) // many small sets: Build's workers finish close together
+		if s%8 == 3 {
+			nsets = 1024 // the whole 1 024-entry table in use
+		}
+		fresh := s%2 == 1 // the 8 goroutines issue the FIRST queries of this matcher (lazily initialised state)
 		type own struct {
 			idx  int
 			name string
@@ -876,6 +942,9 @@ func TestVerifC11Concurrent(t *testing.T) {
 		used := map[int]bool{}
 		for i := 0; i < nsets; i++ {
 			idx := r.Intn(1024)
+			if nsets == 1024 {
+				idx = i
+			}
 			if used[idx] {
 				continue
 			}
@@ -907,46 +976,76 @@ func TestVerifC11Concurrent(t *testing.T) {
 		if err := m.Build(); err != nil {
 			res = "builderr:" + err.Error()
 		}
-		// every set must answer for its own pattern (a lost index-list append would silence one)
 		names := []string{}
 		for _, o := range owns {
 			names = append(names, o.name)
-			bm := m.MatchDomainBitmap(o.name)
-			if res == "same" && bm[o.idx/32]&(1<<(uint(o.idx)%32)) == 0 {
-				res = fmt.Sprintf("lost-set:%d", o.idx)
-			}
 		}
 		for i := 0; i < 40; i++ {
 			names = append(names, c11Name(r), c11LongName(r, 70)+"."+owns[r.Intn(len(owns))].name)
 		}
 		seq := make([]string, len(names))
-		for i, nm := range names {
-			seq[i] = c11Words(m.MatchDomainBitmap(nm))
+		conc := make([][]string, 8)
+		sequential := func() {
+			// every set must answer for its own pattern (a lost index-list append would silence one)
+			for _, o := range owns {
+				bm := m.MatchDomainBitmap(o.name)
+				if res == "same" && bm[o.idx/32]&(1<<(uint(o.idx)%32)) == 0 {
+					res = fmt.Sprintf("lost-set:%d", o.idx)
+				}
+			}
+			for i, nm := range names {
+				seq[i] = c11Words(m.MatchDomainBitmap(nm))
+			}
 		}
+		if !fresh {
+			sequential()
+		} else {
+			stats.Inc("cc.sessions.first_queries_concurrent")
+		}
+		c11Max(stats, "cc.sets.max", len(owns))
 		var wg sync.WaitGroup
 		var mu sync.Mutex
+		reps := 3 * len(names)
+		if reps > 600 {
+			reps = 600
+		}
 		for g := 0; g < 8; g++ {
 			wg.Add(1)
 			rr := r.Fork()
+			g := g
 			go func() {
 				defer wg.Done()
-				for k := 0; k < 3*len(names); k++ {
+				got := make([]string, 0, 2*reps)
+				for k := 0; k < reps; k++ {
 					i := rr.Intn(len(names))
-					if got := c11Words(m.MatchDomainBitmap(names[i])); got != seq[i] {
-						mu.Lock()
-						if res == "same" {
-							res = fmt.Sprintf("concurrent-differs:%s:seq=%s:conc=%s", c11Hex(names[i]), seq[i], got)
-						}
-						mu.Unlock()
-					}
+					got = append(got, strconv.Itoa(i), c11Words(m.MatchDomainBitmap(names[i])))
 				}
+				conc[g] = got
 			}()
 		}
 		wg.Wait()
-		stats.Add("cc.queries", 8*3*len(names))
+		if fresh {
+			sequential() // the reference answers, computed after the race
+		}
+		for g := range conc {
+			for k := 0; k+1 < len(conc[g]); k += 2 {
+				i, _ := strconv.Atoi(conc[g][k])
+				if conc[g][k+1] != seq[i] {
+					mu.Lock()
+					if res == "same" {
+						res = fmt.Sprintf("concurrent-differs:%s:seq=%s:conc=%s", c11Hex(names[i]), seq[i], conc[g][k+1])
+					}
+					mu.Unlock()
+				}
+			}
+		}
+		stats.Add("cc.queries", 8*reps)
 		stats.Inc("cc.sessions")
 		stats.Add("cc.sets", len(owns))
 		st.Emit("cc "+strings.Join(desc, " "), res)
 	}
+	// with one P, Build's worker semaphore serialises its goroutines: an unsynchronised append there
+	// is then invisible to the detector
+	stats.C["cc.gomaxprocs"] = runtime.GOMAXPROCS(0)
 	stats.Write("c11cc")
 }
